@@ -106,7 +106,7 @@ class Result:
             key,
             mod.relpath if mod else "?",
             fn,
-            getattr(node, "lineno", 0) or 0,
+            getattr(node, "lineno", 0) or getattr(getattr(node, "context_expr", None), "lineno", 0) or 0,
             construct,
             message,
             detail or {},
